@@ -497,7 +497,9 @@ def expand_big(case):
     g = case["gen"]
     N, R, H, eos = case["N"], case["R"], case["H"], case["eos"]
     al = g.get("alias")
-    ck = (g["seed"], g["alphabet"], g["noise"], N, R, H, eos, bool(g.get("mix")), repr(sorted(al.items())) if al else None)
+    pe = g.get("eos_pad")
+    ck = (g["seed"], g["alphabet"], g["noise"], N, R, H, eos, bool(g.get("mix")), repr(sorted(al.items())) if al else None,
+          repr(pe))
     if ck in _BIG_CACHE:
         return _BIG_CACHE[ck]
     A = g["alphabet"]
@@ -534,6 +536,29 @@ def expand_big(case):
             garb = rs.integers(0, A + 1, (N, L), dtype=np.int64)
             arr[...] = np.where(pos > ln[:, None], garb, arr)
             arr[pos == ln[:, None]] = A
+            if pe and L >= 8:
+                # SHORT transcripts (0..5 tokens) in a batch whose padded size is hundreds of positions longer: every
+                # column but the first and the last ends early and is followed by a padding that holds a GIVEN NUMBER
+                # of end-of-sequence tokens (the first one included; clipped to the room there is) - all of them right
+                # after the end, all of them at the very end of the row, or scattered - and other (non-eos) filler
+                off = 0 if arr is ref else 3
+                for n in range(1, N - 1):
+                    l0 = int(rs.integers(0, min(5, L - 1) + 1))
+                    want = pe["counts"][(n - 1 + off) % len(pe["counts"])]
+                    room = L - l0 - 1
+                    k = max(0, min(want - 1, room))
+                    tail = rs.integers(0, A, room, dtype=np.int64)
+                    style = int(rs.integers(0, 3))
+                    if style == 0:
+                        tail[:k] = A
+                    elif style == 1:
+                        tail[room - k:] = A
+                    else:
+                        tail[rs.permutation(room)[:k]] = A
+                    body = arr[n, :l0]
+                    arr[n, :l0] = np.where(body == A, rs.integers(0, A, l0, dtype=np.int64), body)
+                    arr[n, l0] = A
+                    arr[n, l0 + 1:] = tail
     if al:
         # tokens that are DIFFERENT integers but congruent modulo 2^bits: on one side (the tensor whose dtype can
         # hold them) a fraction p of the positions - body tokens, end markers and filler alike - holds
@@ -643,6 +668,11 @@ class C01(PropertyCheck):
             "in train() / eval() mode, optionally called again afterwards on another shape ('life:*' keys). Family "
             "'threshold' of the big stream: 8 (thorough 16) batches per run with R, H in 63..130 (around 2^6, 2^7), "
             "N 3..7 mixing empty / short / full-length sequences, cost kind x entry x mode x layout rotating. "
+            "Family 'eos_pad' of the big stream: 6 (thorough 12) batches per run, N 4..7, padded reference and / or "
+            "hypothesis size 257..600 with SHORT transcripts (0..5 tokens) next to full-length ones, the padding of a "
+            "short one holding a steered number of end-of-sequence tokens (127, 128, 255, 256, 257, 511, 512, or as "
+            "many as fit) right after the end / at the end of the row / scattered among non-eos filler "
+            "('big:eos_pad:*' keys). "
             "A column is non-trivial when both cut sequences are "
             "non-empty, the distance is > 0 and not all tokens are equal; distinct by "
             "(ref', hyp', costs, option cell) — counted per column in `distinct_nontrivial_pairs`, "
@@ -1045,7 +1075,7 @@ class C01(PropertyCheck):
 
     # -- large problems (size-triggered code paths)
     def _big(self, rng, rot, family, N, R, H, n_sample=None, eos_kind=None, costs=None, entry=None, mix=False,
-             cell=None):
+             cell=None, eos_pad=None):
         """One large batch; the option cell is random except that entry point (scalar / per-prefix) x layout
         rotate, so that every family sees all four. Nothing but the sizes and a generator seed is stored."""
         A = rng.choice([2, 3, 4, 4, 6, 12])
@@ -1062,6 +1092,8 @@ class C01(PropertyCheck):
         c["ins"], c["del"], c["sub"] = costs or self._costs(rng)
         if mix:
             c["gen"]["mix"] = True
+        if eos_pad:
+            c["gen"]["eos_pad"] = eos_pad
         if n_sample is not None:
             c["n_sample"] = n_sample
         # presentation (never changes a number); the 4x storage of the strided form only for moderate sizes
@@ -1138,6 +1170,40 @@ class C01(PropertyCheck):
                 yield self._big(rng, rot, "threshold", rng.randint(3, 7), R, H, eos_kind=eos_kinds[i],
                                 costs=self._cost_kind(rng, kind), entry=entries[i], mix=True, cell=cells[i])
 
+    EOS_COUNTS = [127, 128, 255, 256, 257, 511, 512]
+
+    def eos_pad_cases(self, rng, rot, tier):
+        """Short transcripts padded with HUNDREDS of end-of-sequence tokens: small batches (N 4..7) whose padded
+        reference and / or hypothesis size is 257..600 while all columns but the first and last hold 0..5 tokens;
+        the number of eos tokens per column is steered to the values around 2^7, 2^8, 2^9 (`EOS_COUNTS`, a shuffled
+        cycle that carries on from batch to batch; clipped to the room in the row), the rest of the padding is non-eos
+        filler. Long side: reference only / hypothesis only / both, each the same number of times; scalar / per-prefix
+        x layout rotate, functional / module balanced. All pairs go to the Lean oracle."""
+        def long_():
+            return rng.choice([rng.randint(257, 270), rng.randint(271, 511), rng.randint(518, 600), rng.randint(518, 600)])
+        n = 6 if tier == "quick" else 12
+        cyc = list(self.EOS_COUNTS)
+        rng.shuffle(cyc)
+        entries = (["functional", "module"] * n)[:n]
+        rng.shuffle(entries)
+        at = 0
+        for i in range(n):
+            N = rng.randint(4, 7)
+            if i % 3 == 0:
+                R, H = long_(), rng.randint(2, 9)
+            elif i % 3 == 1:
+                R, H = rng.randint(2, 9), long_()
+            else:
+                R, H = rng.randint(257, 400), rng.randint(257, 400)
+                if rng.random() < 0.5:
+                    R = long_()
+                else:
+                    H = long_()
+            counts = [cyc[(at + j) % len(cyc)] for j in range(len(cyc))]
+            at += N - 2
+            yield self._big(rng, rot, "eos_pad", N, R, H, eos_kind="in", entry=entries[i], mix=True,
+                            eos_pad={"counts": counts})
+
     def big_cases(self, rng, tier):
         """Problems whose size measures cross the powers of two up to 2^22 (quick) / 2^23 (thorough), one measure
         at a time: the volume (R+1)^2 * N of the deletion temporary, the work N * R * H, and N, R, H alone (N up
@@ -1147,6 +1213,7 @@ class C01(PropertyCheck):
         top = 22 if tier == "quick" else 23
         rounds = 1 if tier == "quick" else 4
         yield from self.threshold_cases(rng, rot, tier)
+        yield from self.eos_pad_cases(rng, rot, tier)
         for rd in range(rounds):
             # (R+1)^2 * N: the (R+1, R+1, N) temporary of the deletion step
             for k in [17, 18, 19, 20, 20, 21, 21, 22] + ([23] if top >= 23 else []):
@@ -1850,6 +1917,17 @@ class C01(PropertyCheck):
                                        else "largest" if al["k"] > 0 else "smallest"))
             if al.get("eos_out"):
                 t.append("big:alias:eos_outside_the_other_dtype")
+        if case["gen"].get("eos_pad") and case["eos"] is not None:
+            ref, hyp = expand_big(case)
+            cr, ch = (ref == case["eos"]).sum(1).tolist(), (hyp == case["eos"]).sum(1).tolist()
+            for side, cs in (("ref", cr), ("hyp", ch)):
+                for c in set(cs):
+                    if c >= 100:
+                        t.append(f"big:eos_pad:{side}_column_with_{c if c in self.EOS_COUNTS else '>=2^%d' % lg(c)}_eos_tokens")
+            if any((a >= 256) != (b >= 256) for a, b in zip(cr, ch)):
+                t.append("big:eos_pad:pair_with>=256_eos_on_one_side_only")
+            if any(a >= 256 and b >= 256 for a, b in zip(cr, ch)):
+                t.append("big:eos_pad:pair_with>=256_eos_on_both_sides")
         t += self._life_tags(case, "big:")
         if impl and impl.get("warned"):
             t += ["warned:" + k for k in impl["warned"]]
@@ -1975,6 +2053,8 @@ class C01(PropertyCheck):
                 yield dict(case, **{k: plain})
         if case["gen"]["noise"] != 0.0:
             yield dict(case, gen=dict(case["gen"], noise=0.0))
+        if case["gen"].get("eos_pad"):
+            yield dict(case, gen={k: v for k, v in case["gen"].items() if k != "eos_pad"})
         al = case["gen"].get("alias")
         if al:
             # no congruent tokens at all / fewer of them / the eos back inside both dtypes
